@@ -1,35 +1,54 @@
-import os
-_SHIM = os.path.join(os.path.dirname(os.path.abspath(__file__)), 'shim')
-
-TECHNIQUE = ('bounded symbolic execution of LLVM IR lowered to C: CBMC/SAT (cadical); real parallel_invoke.h over a model '
-             'ConcurrentTaskSet that plays scheduler at task granularity')
+TECHNIQUE = ('bounded symbolic execution of LLVM IR lowered to C: CBMC/SAT (cadical), sequential engine; real '
+             'parallel_invoke.h + real ConcurrentTaskSet on a contract ThreadPool with virtual workers '
+             '(task-granularity interleaving)')
 ASSUMPTIONS = [
-    'parallel_invoke takes a concrete ConcurrentTaskSet& (no template overload): harness/C16/shim/dispenso/task_set.h '
-    'replaces <dispenso/task_set.h> by a model class with the same schedule(F&&, bool skipRecheck) / '
-    'schedule(F&&, ForceQueuingTag) / wait() surface; the real ConcurrentTaskSet::schedule and wait are properties '
-    'C04/C11 territory and are not part of this check',
-    'model contract: schedule runs the functor inline on the caller or stores it (symbolic); stored closures run exactly '
-    'once, in any order, at the start of later top-level schedule() calls (pool >= 1 thread) or inside wait()',
-    'task-granularity interleaving: a closure runs to completion once started',
+    'dispenso::ThreadPool replaced by its contract model harness/C04/shim/dispenso/thread_pool.h (ForceQueuingTag queues '
+    'unless the pool has 0 threads; tryExecuteNext* run one queued task; FIFO per source; <= VF_PQ_CAP queued tasks); the real '
+    'parallel_invoke.h / task_set.h / detail/task_set_impl.h / task_set.cpp are compiled unchanged against it',
+    'task-granularity interleaving: a functor / packaged task runs to completion once started; pool workers are virtual '
+    '(the harness runs worker steps between API calls and, in the *_mid instances, inside the first functor of a call)',
+    'other tasks of the set that are in flight during the call (symbolic count) finish before wait() is called',
 ]
-OUTSIDE = ('arities above 6; recursion deeper than 2 (quick) / 3 (thorough) levels or non-binary recursion; functors that '
-           'throw; the real ConcurrentTaskSet (inline-depth limit kMaxInlineDepth, load factors)')
+OUTSIDE = ('arities above 4; recursion deeper than 2 levels or non-binary recursion; functors that throw; cancellation; real '
+           'ThreadPool internals (rings, wake protocol: C01/C08/C46/C47); preemption inside a functor or inside schedule()')
 
-_CHECKS = ['--div-by-zero-check', '--pointer-check', '--bounds-check']
-_COMMON = {'src': 'invoke.cpp', 'engine': 'cbmc', 'shims': [_SHIM], 'checks': _CHECKS, 'leak_check': True,
-           'rt_defs': {'VF_NLOG': 128}, 'timeout': 900}
+_POOL = {
+    'engine': 'cbmc', 'shims': ['moodycamel', '../harness/C04/shim'], 'src': 'invoke.cpp',
+    'repo_sources': ['dispenso/detail/per_thread_info.cpp', 'dispenso/task_set.cpp'],
+    'timeout': 900, 'must_reach': 'all',
+}
+_CN = {1: 'TaskCost::kHeavy (schedulePlaced route)', 0: 'TaskCost::kLightweight'}
 
+
+def inst(scen, pool, cost, mid=0, tiers=('quick', 'thorough')):
+    cap = 4
+    name = '%s_p%d_%s%s' % ('arity' if scen == 0 else 'recursive', pool, 'H' if cost else 'L', '_mid' if mid else '')
+    d = dict(_POOL)
+    u = 8
+    d.update({
+        'name': name, 'tiers': list(tiers),
+        'defs': {'VF_SCEN': scen, 'VF_POOL_N': pool, 'VF_COST': cost, 'VF_MIDCALL': mid, 'VF_PQ_CAP': cap, 'VF_MQ_CAP': 1,
+                 },
+        'unwind': u,
+        'unwindset': {'_ZN8dispenso10ThreadPool11popMatchingEjjb.0': cap + 1, '_ZN8dispenso10ThreadPoolC2Emm.0': cap + 1},
+        'bounds': ('%s on a real ConcurrentTaskSet, %s, contract pool with %d threads; every combination of {0,1,2,3,12} other '
+                   'tasks of the set in flight during the call, caller inline depth {0, kMaxInlineDepth} (inline gate of '
+                   'schedule taken / not taken / crossing its threshold mid-call), 0..2 virtual-worker steps%s, then wait() '
+                   'and the destructors; literal scenarios under a symbolic selector; task-granularity interleaving'
+                   % ('one parallel_invoke call of arity 2, 3 or 4 (lvalue/rvalue lambdas, functor objects)' if scen == 0 else
+                      'depth-2 divide and conquer (parallel_invoke(L, R), L and R each parallel_invoke two leaves on the same set)',
+                      _CN[cost], pool, ', with / without one more worker step inside the first functor (in the middle of the call)' if mid else '')),
+    })
+    if pool == 0:
+        d.pop('must_reach')   # a zero-thread pool never queues: the "still queued" marker is unreachable by design
+    return d
+
+
+_T = ('thorough',)
 INSTANCES = [
-
-    dict(_COMMON, name='arity', defs={'VF_SCEN': 0, 'VF_NPOOL': 2, 'VF_MAXTASKS': 5}, unwind=8,
-         bounds='one parallel_invoke call of symbolic arity 1..6 (rvalue/lvalue lambdas, lvalue and const functor objects); '
-                'pool size 0..2; each scheduled functor inline or stored; stored ones run in any order at later schedule() '
-                'calls or in wait() (task-granularity interleaving)'),
-    dict(_COMMON, name='recursive', defs={'VF_SCEN': 1, 'VF_NPOOL': 2, 'VF_DEPTH': 2, 'VF_MAXTASKS': 3, 'VF_WAITRUNS': 3},
-         unwind=8,
-         bounds='binary divide-and-conquer recursion of depth 2 (7 nodes, 3 parallel_invoke calls), one wait() at the top; '
-                'pool size 0..2; every scheduled child inline or stored; stored ones run in any order (also closures stored '
-                'while wait() is running)',
-         thorough={'defs': {'VF_SCEN': 1, 'VF_NPOOL': 2, 'VF_DEPTH': 3, 'VF_MAXTASKS': 7, 'VF_WAITRUNS': 7}, 'unwind': 16,
-                   'timeout': 1700}),
+    inst(0, 1, 1), inst(0, 2, 0), inst(0, 0, 1),
+    inst(1, 1, 1), inst(1, 2, 0),
+    inst(0, 2, 1, tiers=_T), inst(0, 1, 0, tiers=_T), inst(0, 0, 0, tiers=_T),
+    inst(1, 2, 1, tiers=_T), inst(1, 1, 0, tiers=_T), inst(1, 0, 1, tiers=_T),
+    inst(0, 1, 1, mid=1, tiers=_T), inst(1, 1, 1, mid=1, tiers=_T), inst(1, 2, 0, mid=1, tiers=_T),
 ]
